@@ -995,10 +995,17 @@ selftest(
          '                picked = parsed[lo:fieldend] if last else parsed[lo:]\n'
          '                data = np.append(data, np.array(picked))\n\n                fieldstart = 1\n'),
     # the two repairs of today's findings: must not raise anything new (and silence the finding, checked by hand)
-    Twin('repair-mixed-exp-optional-sign', FW, 'mixed_exp = _ToFloat(Combine(digits + ee + Optional(sign) + digits))',
-         'mixed_exp = _ToFloat(Combine(Optional(sign) + digits + ee + Optional(sign) + digits))'),
-    Twin('repair-keyvar-reverse-row', FW, '        elif occurrence < 0:\n            row = -1\n            for line in reversed(self._data[self._current_row:]):',
-         '        elif occurrence < 0:\n            row = len(self._data) - self._current_row - 1\n            for line in reversed(self._data[self._current_row:]):'),
-    Twin('repair-overflow-keeps-line-end', FW, '            self._data[j] = newline\n\n        # Sometimes an array is too small',
-         "            self._data[j] = newline + ('\\n' if line.endswith('\\n') else '')\n\n        # Sometimes an array is too small"),
+    Mutant('mixed-exp-sign-dropped-F', FW, 'mixed_exp = _ToFloat(Combine(Optional(sign) + digits + ee + Optional(sign) + digits))',
+           'mixed_exp = _ToFloat(Combine(digits + ee + Optional(sign) + digits))', 'C29.tokens'),
+    Twin('twin-mixed-exp-sign-literal', FW, 'mixed_exp = _ToFloat(Combine(Optional(sign) + digits + ee + Optional(sign) + digits))',
+         'mixed_exp = _ToFloat(Combine(Optional(oneOf("+ -")) + digits + ee + Optional(sign) + digits))'),
+    Twin('repair-keyvar-reverse-row', FW, '        elif occurrence < 0:\n            row = -1\n            for line in reversed(self._data[self._current_row:]):\n                if line.find(key) > -1:\n                    instance += -1\n                    if instance == occurrence:\n                        break\n                row -= 1\n            # row counts back from the end of the file; make it relative to the anchor\n            row += len(self._data) - self._current_row\n',
+         '        elif occurrence < 0:\n            row = len(self._data) - self._current_row - 1\n            for line in reversed(self._data[self._current_row:]):\n                if line.find(key) > -1:\n                    instance += -1\n                    if instance == occurrence:\n                        break\n                row -= 1\n'),
+    Mutant('keyvar-reverse-row-double-offset', FW, '        elif occurrence < 0:\n            row = -1\n            for line in reversed(self._data[self._current_row:]):',
+           '        elif occurrence < 0:\n            row = len(self._data) - self._current_row - 1\n            for line in reversed(self._data[self._current_row:]):', 'C29.read'),
+    Mutant('overflow-drops-line-end-F', FW, '            self._data[j] = newline + eol\n', '            self._data[j] = newline\n', 'C29.write'),
+    Twin('twin-overflow-line-end-inline', FW, '            self._data[j] = newline + eol\n',
+         '            newline = newline + eol\n            self._data[j] = newline\n'),
+    Mutant('overflow-line-end-after-strip', FW, '            self._data[j] = newline + eol\n',
+           '            self._data[j] = newline + newline[len(newline.rstrip()):]\n', 'C29.write'),
 )
